@@ -22,7 +22,6 @@ RULE = ("the finite matrix 9 solvers x 15 datafit configurations x 19 penalties 
         "one cell was accepted and solved; distinct = SHA-1 of the case; cells / accepted cells are counted in "
         "classes.")
 ASSUMPTIONS = ["datafits are initialised on the data before solve (documented usage; FISTA / ProxNewton / LBFGS / PDCD_WS do not do it themselves)",
-               "FISTA's criterion uses the gradient at the extrapolated point: its certificate is honoured up to 2 tol",
                "PDCD_WS's criterion is a primal-dual fixed-point residual, not a primal certificate: only finiteness is judged here (C02 judges its optimum)",
                "non-convergence inside the budget is inconclusive (counted), never a violation"]
 
@@ -254,13 +253,15 @@ def check_case(case):
                 n_incon += 1
                 continue
             ck = certificate_kind(solver, fam, pen)
-            if solver == "FISTA" and pen not in ("L1", "WeightedL1", "L1_plus_L2", "IndicatorBox", "PositiveConstraint", "L2"):
-                ck = None   # FISTA's criterion (gradient at the extrapolated point) is not a certificate for non-convex penalties
+            if solver == "FISTA" and ws == "fixpoint" and pen not in ("L1", "WeightedL1", "L1_plus_L2", "IndicatorBox", "PositiveConstraint", "L2"):
+                ck = None   # one-sided step argument of problems.global_lipschitz needs a convex penalty
+            if solver == "FISTA" and ws == "fixpoint" and ck is not None and P.global_lipschitz(pc) is None:
+                ck = None
             if ck is None:
                 classes.append("accepted-without-reference-certificate")
                 continue
             try:
-                strat = ws if solver in ("AndersonCD", "ProxNewton", "GroupBCD", "MultiTaskBCD") else "subdiff"
+                strat = ws if solver in ("AndersonCD", "ProxNewton", "GroupBCD", "MultiTaskBCD", "FISTA") else "subdiff"
                 if pen == "L2":
                     strat = "subdiff"
                 c = c01.certificate(pc, out.w, strat or "subdiff")
@@ -268,7 +269,7 @@ def check_case(case):
                 viol.append(Viol(dict(sig, kind="accepted-ill-formed", exc=type(e).__name__),
                                  f"{solver} x {fam} x {pen} accepted and 'converged' but its output has no valid shape for the problem: {e!r}"[:300]))
                 continue
-            lim = (2. if solver == "FISTA" else 1.) * tol * (1 + 1e-6)
+            lim = tol * (1 + 1e-6)
             slack = 1e-7
             exc = c["vec"] - lim - slack * c["gscale"]
             bad_f = len(exc) and exc.max() > 0
